@@ -330,6 +330,13 @@ func Run(cs Case, c *vrt.Ctx) {
 	if cs.Named > 0 {
 		v = tyx.Catalogue(cs.Named - 1)
 		rv = reflect.ValueOf(v)
+		if cs.Ptr && rv.Kind() == reflect.Struct {
+			// addressable: the encoders then read fields through unsafe offsets
+			p := reflect.New(rv.Type())
+			p.Elem().Set(rv)
+			v = p.Interface()
+			rv = p.Elem()
+		}
 		c.Class("named-catalogue")
 	} else {
 		rt := cs.Type.Build()
